@@ -44,6 +44,27 @@ def make_cases(rng, tier):
             reads.append({"kind": "tiny:whole", "segs": [data], "expect": want})
             if k <= 2:
                 reads.append({"kind": "tiny:bytewise", "segs": [data[i:i + 1] for i in range(len(data))], "expect": want})
+    # a frame above 64 KiB with pipelined frames behind it, the first of which is only partly there when the large one completes
+    for size in (65537, 70000, 100000):
+        for rep_i in range(n):
+            head = [G.gen_writable(rng) for _ in range(rng.rng(0, 2))]
+            big = ("B", bytes([rng.below(256)]) * size)
+            tail = [G.gen_writable(rng) for _ in range(rng.rng(1, 3))]
+            frames = head + [big] + tail
+            data = b"".join(G.enc(f) for f in frames)
+            end_big = len(b"".join(G.enc(f) for f in head + [big]))
+            first = len(G.enc(tail[0]))
+            want = ";".join("frame:" + G.show(f) for f in frames)
+            w_head = ";".join("frame:" + G.show(f) for f in head + [big])
+            for k in sorted(set([1, max(1, first // 2), max(1, first - 1)])):
+                if k >= first and first > 1:
+                    continue
+                cut = end_big + min(k, first)
+                reads.append({"kind": "big-then-partial", "segs": [s for s in (data[:cut], data[cut:]) if s], "expect": want + ";clean"})
+                if k < first:
+                    reads.append({"kind": "big-then-truncated", "segs": [data[:cut]], "expect": w_head + ";reset"})
+            for kind, segs in segmentations(rng, data, tier):
+                reads.append({"kind": "bigmid:" + kind, "segs": segs, "expect": want + ";clean"})
     for i in range(220 * n):
         frames = [G.gen_writable(rng) for _ in range(rng.rng(1, 4))]
         if i % 40 == 0:
